@@ -23,17 +23,28 @@ class Controller:
         self.go = [False] * n
         self.done = [False] * n
         self.error = [None] * n
+        self.abort = False                     # the schedule is over (or given up): nobody stops any more
 
     # ---- worker side
     def arrive(self, tid, place):
         with self.cv:
+            if self.abort:
+                return
             self.where[tid] = place
             self.arrivals[tid] += 1
             self.cv.notify_all()
-            while not self.go[tid]:
+            while not self.go[tid] and not self.abort:
                 self.cv.wait()
             self.go[tid] = False
             self.where[tid] = None
+
+    def let_go(self, threads):
+        """whatever happened: no thread may stay parked (it could hold the tooling lock for ever)"""
+        with self.cv:
+            self.abort = True
+            self.cv.notify_all()
+        for th in threads:
+            th.join(timeout=STOP_TIMEOUT)
 
     def finish(self, tid, err=None):
         with self.cv:
@@ -101,7 +112,13 @@ def run_schedule(workers, expected, steps):
         threads.append(th)
         th.start()
     idx = [0] * n            # next group of each thread's program to execute
+    try:
+        yield from _run_schedule_body(ctrl, threads, expected, steps, idx, n)
+    finally:
+        ctrl.let_go(threads)
 
+
+def _run_schedule_body(ctrl, threads, expected, steps, idx, n):
     def align(tid):
         """bring thread tid to the stop that begins group idx[tid] (draining repeats / skipping absent)"""
         while True:
@@ -174,6 +191,16 @@ def run_free(workers, stop_lines, schedule, quantum=0.2):
             return ok
 
     parked = [False] * n            # blocked at a stop point whose arrival has been consumed
+    try:
+        _run_free_body(ctrl, threads, schedule, quantum, arrived, parked, n)
+    finally:
+        ctrl.let_go(threads)
+    errs = [e for e in ctrl.error if e is not None]
+    if errs:
+        raise errs[0]
+
+
+def _run_free_body(ctrl, threads, schedule, quantum, arrived, parked, n):
     for tid in range(n):
         parked[tid] = arrived(tid, STOP_TIMEOUT) and not ctrl.done[tid]
     for tid in schedule:
